@@ -636,3 +636,26 @@ mod tests {
     );
   }
 }
+
+/// Verification hook (only with `--cfg samlang_verif`): the list differ on plain values.
+#[cfg(samlang_verif)]
+pub(crate) mod verif {
+  /// The edit script `list_differ::compute` produces, with elements rendered through `show`:
+  /// ("replace", index, [old, new]) | ("delete", index, [old]) | ("insert", index, items)
+  pub(crate) fn list_diff<T: PartialEq>(
+    old_list: &[T],
+    new_list: &[T],
+    show: &dyn Fn(&T) -> String,
+  ) -> Vec<(&'static str, i32, Vec<String>)> {
+    super::list_differ::compute(old_list, new_list)
+      .into_iter()
+      .map(|(i, c)| match c {
+        super::ChangeWithoutLoc::Replace(a, b) => ("replace", i, vec![show(a), show(b)]),
+        super::ChangeWithoutLoc::Delete(a) => ("delete", i, vec![show(a)]),
+        super::ChangeWithoutLoc::Insert { items, .. } => {
+          ("insert", i, items.iter().map(show).collect())
+        }
+      })
+      .collect()
+  }
+}
